@@ -1,6 +1,6 @@
 """C09 extra: (1) the lost-wake-up scenarios on the REAL controllers with their real watchers and queues (harness/cmd/c09),
-(2) the search over the extracted queue model (ocaml/c09_search.ml): code as it is -> the known families must be the only
-ones; repaired code (all three fix patches) without SERIALIZABLE transactions -> no idle state that is not a fixed point.
+(2) the search over the extracted queue model (ocaml/c09_search.ml): with SERIALIZABLE transactions the open family
+(serializable_gate and its consequences) must be the only one; without them no idle state may fail to be a fixed point.
 
 Call `run_extra(ctx)` from props/C09.py after p2_judge."""
 import os
@@ -8,13 +8,15 @@ import re
 
 import vlib
 
-EXPECTED_FAMILIES = {"dead_prev", "initfail_successor", "serializable_gate", "sync_wakeup", "commit_hidden_by_apply", "other_tx", "other_prop"}
+# with a SERIALIZABLE transaction parked at its gate, its successors (other_tx: INITIALIZING behind it) and the proposals that wait
+# for its proposals (sync_wakeup / commit_hidden_by_apply shapes) are stranded with it
+EXPECTED_FAMILIES = {"serializable_gate", "other_tx", "sync_wakeup", "commit_hidden_by_apply"}
 
 
 def _excuse(ctx, signature, detail, replay):
-    """open and fixed-pending findings excuse their own signature (a fixed one excuses nothing)"""
+    """open findings excuse their own signature (a fixed one excuses nothing)"""
     for k in vlib.known_findings(ctx.prop):
-        if k["signature"] == signature and k["status"] in ("open", "fixed-pending"):
+        if k["signature"] == signature and k["status"] == "open":
             ctx.known_hits.setdefault(k["id"], k["what"][:300])
             return
     ctx.violation("%s: %s" % (signature, detail), replay)
@@ -24,8 +26,8 @@ def run_model_search(ctx):
     exe = ctx.build_mcheck("c09", "ExC09.v", "c09_search.ml")
     n = "40000" if ctx.tier == "thorough" else "3000"
     res = {}
-    for name, fixes, env in (("as_is", "000", {}), ("repaired", "111", {"C09_NOSER": "1"})):
-        rc, so, se = vlib.sh2([exe, "random", str(ctx.seed), n, "0", fixes], env=env, timeout=900)
+    for name, env in (("as_is", {}), ("repaired", {"C09_NOSER": "1"})):
+        rc, so, se = vlib.sh2([exe, "random", str(ctx.seed), n], env=env, timeout=900)
         if rc != 0:
             raise vlib.CheckError("c09_search failed rc=%s\n%s" % (rc, se[-2000:]))
         fam = {}
@@ -40,17 +42,17 @@ def run_model_search(ctx):
     fam, stats = res["as_is"]
     unknown = sorted(set(fam) - EXPECTED_FAMILIES)
     if unknown:
-        ctx.violation("c09_model_new_family: the queue model of the code as it is reaches idle non-fixed-point states of a family that is "
-                      "not a recorded finding: %s" % unknown, {"families": fam, "how": "ocaml/c09_search.ml random %s %s 0 000" % (ctx.seed, n)})
+        ctx.violation("c09_model_new_family: the queue model (with SERIALIZABLE transactions) reaches idle non-fixed-point states of a family that is "
+                      "not a recorded finding: %s" % unknown, {"families": fam, "how": "ocaml/c09_search.ml random %s %s" % (ctx.seed, n)})
     fam2, stats2 = res["repaired"]
     if fam2:
-        ctx.violation("c09_model_repaired_not_fixpoint: with the three repairs and no SERIALIZABLE transaction the queue model still reaches "
+        ctx.violation("c09_model_not_fixpoint: without SERIALIZABLE transactions the queue model reaches "
                       "an idle state that is not a fixed point: %s" % fam2,
-                      {"families": fam2, "how": "C09_NOSER=1 ocaml/c09_search.ml random %s %s 0 111" % (ctx.seed, n)})
+                      {"families": fam2, "how": "C09_NOSER=1 ocaml/c09_search.ml random %s %s" % (ctx.seed, n)})
     ctx.coverage["c09_model_search"] = {
-        "as_is": {"idle_states": stats.get("idle_states", 0), "not_fixpoint": stats.get("idle_not_fixpoint", 0), "families": fam},
-        "repaired_no_serializable": {"idle_states": stats2.get("idle_states", 0), "not_fixpoint": stats2.get("idle_not_fixpoint", 0),
-                                     "deadlocked_idle_states (F-21)": stats2.get("idle_fixpoint_but_stranded", 0)},
+        "with_serializable": {"idle_states": stats.get("idle_states", 0), "not_fixpoint": stats.get("idle_not_fixpoint", 0), "families": fam},
+        "no_serializable": {"idle_states": stats2.get("idle_states", 0), "not_fixpoint": stats2.get("idle_not_fixpoint", 0),
+                            "runs_ending_in_requeue_cycle (F-21)": stats2.get("runs_cycle", 0)},
     }
 
 
